@@ -122,16 +122,28 @@ def verify_function(prog, reg, c, labels=None, opts=None, timeout_ms=20000):
         fn, mod = prog.func(c.qual.split('#')[0])
     except KeyError as e:
         rep.error = f'contract no longer attaches: {e}'; return rep
+    wr = prog.wrapped_by(c.qual)
+    if wr:
+        rep.error = f'function is wrapped by decorator(s) {wr}: callers of the name reach the wrapper, so a contract proved on the body does not transfer'; return rep
     argnames = [a.arg for a in fn.args.args]
-    missing = [n for n in c.params if n not in argnames]
+    # a contract on a mechanically extracted block names the block's outer locals by ROLE (order of first use), not by spelling
+    roles = (getattr(c, 'opts', None) or {}).get('local_roles')
+    alias = {}
+    if roles and c.qual in getattr(prog, 'extracted', {}):
+        actual = argnames[len(argnames) - len(roles):]
+        if len(actual) == len(roles) and len(argnames) - len(roles) == prog.extracted[c.qual].get('n_outer_params', -1): alias = dict(zip(roles, actual))
+        chk = c.opts.get('role_check')
+        if alias and chk is not None and not chk(fn, alias): alias = {}          # the roles do not fit this code: the contract does not attach (undecided)
+    cparams = {alias.get(k, k): v for k, v in c.params.items()}
+    missing = [n for n in cparams if n not in argnames]
     if missing:
         rep.error = f'contract no longer attaches: parameters {missing} not in signature {argnames}'; return rep
     try:
         p = sx.Path([], {})
         env = {}
         for n in argnames:
-            if n in c.params:
-                sh = c.params[n]
+            if n in cparams:
+                sh = cparams[n]
                 env[n] = sh(S, p, ex) if callable(sh) else ex.fresh_value(p, sh, n)
             else:
                 d = _default_of(fn, n)
@@ -139,7 +151,7 @@ def verify_function(prog, reg, c, labels=None, opts=None, timeout_ms=20000):
                     rep.error = f'contract no longer attaches: parameter {n} has no shape and no default'; return rep
                 env[n] = ex.lift_const(ast.literal_eval(d))
         fr = sx.Frame(c.qual.split('#')[0], fn, mod, c)
-        fr.argns = sx.Namespace(dict(env), p)
+        fr.argns = sx.Namespace(dict(env, **{r: env[a] for r, a in alias.items()}), p)
         if c.setup: c.setup(S, fr.argns, p, ex)
         pre = c.pre(S, fr.argns) if c.pre else None
         p = sx.Path(([pre] if pre is not None else []), env, p.heap)
